@@ -133,6 +133,7 @@ def run_one(ctx, res, j, xs, bucket=None):
         if bad:
             res.violations.append(dict(key='grand-total-nonzero', desc='accepted exactly balanced journal has a non-zero total at cost: %s' % bad,
                                        case=dict(journal=text), observed=str(bad), required='zero in every commodity'))
+    return rejected, errs, text
 
 
 def without_virtual(ctx, res, j, xs, rejected, errs, text):
@@ -271,6 +272,63 @@ def automated(ctx, res, rng, n):
                 res.violations.append(dict(key='admitted-unbalanced:automated', desc='the postings that must balance of an admitted transaction (with the postings automated transactions added) sum to %s' % {k: str(v) for k, v in tot.items()},
                                            case=dict(journal=text, xact=i), observed='accepted', required='zero at display precision, or Transaction does not balance'))
 
+MARKS = ['* ', '! ', '*', '!', '*\t', '!  ', '* \t']
+HEADS = ['* ', '! ', '(c1) ', '* (#42) ', '! (a b) ', '*(7) ', '!   ']
+
+
+def gen_only_virtual(rng):
+    """a transaction none of whose postings has to balance: 1-3 (virtual) postings with arbitrary amounts"""
+    ps = []
+    for _ in range(rng.randrange(1, 4)):
+        sym = rng.choice(['$', 'EUR', 'AAA'])
+        a = X.Amt.rand(rng, sym)
+        ps.append(X.Post(X.acct_of(rng, 'V'), 'V', a if rng.random() < 0.6 else a.neg()))
+    x = X.Xact(ps)
+    x.kind_tag = 'only-virtual'
+    return x
+
+
+def state_flags(ctx, res, rng, n):
+    """state flags and codes are irrelevant for the balance; a transaction of (virtual) postings only is accepted.
+    The main generator's journals, a few only-(virtual) transactions among them, are run through ledger twice: as they
+    are, and with a state flag (`* `, `!`, `*<tab>` ...) before the account of about half the postings and a state flag
+    and/or a (code) in about half the transaction headers.  The flagged journal goes through the whole comparison (the
+    model reads the flag off the written posting line, Model/PostLine.v read_post_line) and the property-text oracle;
+    and - judged on ledger alone - it accepts and rejects exactly the transactions of the unflagged journal, with the
+    same error classes."""
+    for j in range(n):
+        xs = gen_journal(rng)
+        for _ in range(rng.randrange(0, 3)):
+            v = gen_only_virtual(rng)
+            v.date = '2020/%02d/%02d' % (rng.randrange(1, 13), rng.randrange(1, 29))
+            xs.insert(rng.randrange(0, len(xs) + 1), v)
+        text0 = X.render_journal(xs)
+        st0, out0, err0, path0 = X.run_ledger_journal(ctx, 'C01_flags0_%d.dat' % (j % 4), text0)
+        errs0 = X.parse_errors(err0, path0, text0)
+        res.evaluations += 1
+        for x in xs:
+            if rng.random() < 0.5:
+                x.head = rng.choice(HEADS)
+                res.count('state-flags:header:' + x.head.strip().replace(' ', '_')[:1])
+            for q in x.posts:
+                if rng.random() < 0.5:
+                    q.mark = rng.choice(MARKS)
+                    if q.sep is None:
+                        q.sep = '    '             # the written line is handed to the model
+                    res.count('state-flags:posting-flagged')
+        rejected, errs, text = run_one(ctx, res, 100000 + 2 * j + 1, xs)
+        res.count('state-flags:journals')
+        for i, x in enumerate(xs):
+            if getattr(x, 'kind_tag', None) == 'only-virtual':
+                res.count('only-virtual:' + ('rejected' if i in rejected else 'accepted'))
+        a = {k: v for k, v in errs0.items() if isinstance(k, int)}
+        b = {k: v for k, v in errs.items() if isinstance(k, int)}
+        for i in sorted(set(a) | set(b)):
+            if a.get(i) != b.get(i):
+                res.violations.append(dict(key='state-flag-decides-acceptance', desc='transaction x%d is %s as written plainly and %s with state flags / a code written in'
+                                           % (i, 'rejected (%s)' % a[i] if i in a else 'accepted', 'rejected (%s)' % b[i] if i in b else 'accepted'),
+                                           case=dict(journal=text, xact=i, unflagged=text0), observed='acceptance differs', required='the same acceptance'))
+
 
 def run(ctx, n_override=None):
     rng = ctx.rng
@@ -278,7 +336,8 @@ def run(ctx, n_override=None):
     res.rule = ('journals of 3-13 transactions drawn from: exactly balanced (1-3 commodities, costs @/@@, (virtual)/[balanced] '
                 'postings), off by >= 1 whole unit, off by a sub-display amount, residual at/just below/just above half a display '
                 'unit through an excess-precision cost, two-commodity implied-rate shapes, lot price vs sale price (gain/loss), one '
-                'elided amount, commodity-less amounts, a (virtual) lot sale; plus journals with automated transactions (the C16 generator) judged on '
+                'elided amount, commodity-less amounts, a (virtual) lot sale; the same journals with state flags before posting accounts, state flags and (codes) in headers and '
+                'transactions of (virtual) postings only; plus journals with automated transactions (the C16 generator) judged on '
                 'the admitted rows alone; non-trivial = the property text determines accept/reject for it (or a rule extended the transaction); '
                 'distinct by rendered text')
     n = n_override or ctx.scale(260, 3500)
@@ -291,6 +350,7 @@ def run(ctx, n_override=None):
         if j % 4 == 1 and any(classify(x) == 'reject' for x in xs):
             exit_status_across_files(ctx, res, rng, j, xs)
     automated(ctx, res, rng, max(20, n // 4))
+    state_flags(ctx, res, rng, max(30, n // 7))
     many_unbalanced(ctx, res, rng)
     return res
 
